@@ -189,6 +189,8 @@ type pointMod struct {
 	key   *SExpr
 	cond  *SExpr
 	text  string
+	st    types.Type // struct type and field index when the entry is T.f[key]
+	f     int
 }
 
 // pointMods: modifies entries of the form NAME[expr] (the array changes at that key only).
@@ -256,7 +258,21 @@ func (g *Gen) pointMods(fc *FnCtx, sp *FuncSpec) []pointMod {
 			fc.errs = append(fc.errs, "modifies "+e+": "+err.Error())
 			continue
 		}
-		out = append(out, pointMod{names: g.modEntryNames(fc, sp, strings.TrimSpace(e[:i])), key: k, cond: cond, text: full})
+		pm := pointMod{names: g.modEntryNames(fc, sp, strings.TrimSpace(e[:i])), key: k, cond: cond, text: full, f: -1}
+		if tf := strings.TrimSpace(e[:i]); !strings.HasPrefix(tf, "ghost ") {
+			if j := strings.LastIndex(tf, "."); j > 0 {
+				if t := g.namedType(tf[:j]); t != nil {
+					if stt, ok := t.Underlying().(*types.Struct); ok {
+						for x := 0; x < stt.NumFields(); x++ {
+							if stt.Field(x).Name() == tf[j+1:] {
+								pm.st, pm.f = t, x
+							}
+						}
+					}
+				}
+			}
+		}
+		out = append(out, pm)
 	}
 	return out
 }
@@ -516,7 +532,13 @@ func (fr *Frame) call(in ssa.Instruction, c *ssa.CallCommon, b *ssa.BasicBlock, 
 				gi := sAnd(guard, is)
 				rest = sAnd(rest, sNot(is))
 				all := append([]Val{{T: im.recvT, S: recv.Sub[1].S}}, args...)
-				r, st2 := fr.applyContract(im.sp, im.fn, fnName(im.fn), im.sp.paramNames(im.fn, im.fn.Signature, false), all, resT, im.fn.Signature, b, st, gi, in)
+				var r Val
+				var st2 *State
+				if fr.shouldInline(im.fn, im.sp) && len(findLoops(im.fn)) == 0 {
+					st2 = fr.inline(nil, im.fn, nil, all, resT, b, st, gi, func(v Val) { r = v })
+				} else {
+					r, st2 = fr.applyContract(im.sp, im.fn, fnName(im.fn), im.sp.paramNames(im.fn, im.fn.Signature, false), all, resT, im.fn.Signature, b, st, gi, in)
+				}
 				sts = append(sts, st2)
 				conds = append(conds, is)
 				vals = append(vals, r)
@@ -591,6 +613,9 @@ func (sp *FuncSpec) paramNames(fn *ssa.Function, sig *types.Signature, withRecv 
 func (fr *Frame) shouldInline(fn *ssa.Function, sp *FuncSpec) bool {
 	fc := fr.fc
 	name := fnName(fn)
+	if fr.onStack(fn) || fr.depth > 8 {
+		return false
+	}
 	if fc.spec != nil {
 		for _, n := range fc.spec.NoInline {
 			if n == name {
@@ -957,11 +982,33 @@ func (fr *Frame) applyContract(sp *FuncSpec, fn *ssa.Function, name string, pnam
 				}
 			}
 		}
+		var refFresh []string
+		var typed []func()
+		defer func() {
+			// references written by the callee exist when it returns; written fields hold well-typed values
+			for _, r := range refFresh {
+				fc.define(fc.refBelowTop(nst, r))
+			}
+			for _, f := range typed {
+				f()
+			}
+		}()
 		for _, pm := range fc.g.pointMods(fc, sp) {
 			kv := kenv.tr(pm.key)
 			k := kv.S
 			if kindOf(kv.T) == KIface {
 				k = kv.Sub[1].S
+			}
+			if pm.st != nil && pm.f >= 0 {
+				pmc, kk := pm, k
+				typed = append(typed, func() {
+					ft := pmc.st.Underlying().(*types.Struct).Field(pmc.f).Type()
+					if kindOf(ft) == KStruct || kindOf(ft) == KArray {
+						return
+					}
+					v := fc.load(nst, &Addr{Kind: aField, Obj: kk, ST: pmc.st, F: pmc.f}, ft)
+					fc.define(fc.typingFacts(nst, v))
+				})
 			}
 			for _, n := range pm.names {
 				srt := fc.sorts[n]
@@ -969,6 +1016,9 @@ func (fr *Frame) applyContract(sp *FuncSpec, fn *ssa.Function, name string, pnam
 				vs := strings.TrimSuffix(srt[strings.Index(srt[7:], " ")+8:], ")")
 				fv := fc.freshName(n + "@pt")
 				fc.declareConst(fv, vs)
+				if fc.refArr[n] {
+					refFresh = append(refFresh, sym(fv))
+				}
 				cur := nst.get(n)
 				upd := sx("store", cur, k, sym(fv))
 				if pm.cond != nil {
